@@ -148,4 +148,4 @@ def hash_value(rng, name):
                              "".join(rng.choice("ABCDEFabcdef0123+/") for _ in range(rng.randrange(3, 12))))
     n = HASH_HEX_LEN.get(name, HASH_HEX_LEN.get(up, 32))
     digits = "0123456789abcdef" if rng.random() < 0.8 else "0123456789ABCDEF"
-    return "".join(rng.choice(digits) for _ in range(n))
+    return ("T1" if up == "TLSH" and rng.random() < 0.5 else "") + "".join(rng.choice(digits) for _ in range(n))
